@@ -16,3 +16,17 @@ CLAIMS["C09"] = dict(
           "front end, the README's --type list as the documented API, and the convention negative = not given."),
     technique="AST/CFG rules: guard-source-target agreement, switch-table exhaustiveness, ordered-dispatch shadowing",
     design_ref="DESIGN.md section 3, C09 (R09a-R09e)")
+
+CLAIMS["C05"] = dict(
+    text=("Decides structural clauses that are necessary for memory safety and failure reporting, on every call site / "
+          "subscript / path of the current source: (R05a) every index computed from a plain char into a table of <= 256 "
+          "entries stays in range for all 256 byte values the dominating guards admit (exact finite-domain evaluation); "
+          "(R05b) the residue-code loop assigns a defined table entry on every path; (R05d) no status of a callee that can "
+          "fail by input is dropped and main returns EXIT_FAILURE after ERROR; (R05e) NULL-tested cursors are not "
+          "dereferenced untested in the same loop; (R05g) the API never reaches exit/abort; (R05i) a pointer published "
+          "through an out-parameter is not released afterwards. Each rule has must-fire / must-stay-silent controls."),
+    note=("Clauses only: termination, index safety inside the DP and bit-parallel kernels, integer overflow and malloc "
+          "failure paths are NOT decided (goto-analyzer could not bound the kernels; DESIGN section 1). Assumes C-locale "
+          "ctype semantics and 8-bit signed plain char."),
+    technique="AST/CFG dataflow rules: byte-domain index evaluation, must-assign, error-status discipline, typestate on out-parameters, call-graph reachability",
+    design_ref="DESIGN.md section 3, C05 (R05a-R05i)")
